@@ -167,8 +167,9 @@ def ir_calls(ix, fn, irfile):
         lhs = st["lhs"]
         args, ins, flags, out, src = [], [], [0, 0, 0, 0], None, -1
         if kind == "call":
-            name = strip_q(st["fn"])
-            it = ix.item_by_id.get(int(name[4:])) if name.startswith("Prov") and name[4:].isdigit() else None
+            q, _, name = st["fn"].rpartition(".")
+            lp = alias.get(q) if q else u.inj["pkg"]
+            it = next((x for x in u.items if x["kind"] == "func" and x["pkg"] == lp and x.get("fn", "Prov%d" % x["id"]) == name), None)
             if it is None:
                 probs.append("call of unknown function " + st["fn"])
                 continue
